@@ -48,11 +48,11 @@ PROPS = {
     ),
     'C04': dict(
         level='proof',
-        level_text='Verus proves the integer conversions (load_le of a slice = sum of code_i * 2^(i*BITS); longer slices refused with SequenceTooLong), KmerStorage::{to_bitarray,from_bitslice}, from_raw (Some exactly when the image holds len symbols, bits read from the image) and into_raw together with the invariant head == 0 on to_owned / & / | / edits, plus the layout lemma from bit-level agreement to the documented symbol layout',
+        level_text='Verus proves the integer conversions (load_le of a slice = sum of code_i * 2^(i*BITS); longer slices refused with SequenceTooLong), KmerStorage::{to_bitarray,from_bitslice}, from_raw (Some exactly when the image holds len symbols, bits read from the image) and into_raw together with the invariant head == 0: ESTABLISHED by every constructor of an owned sequence (new, with_capacity, from_raw, to_owned, & / |, and the public conversions From<&BitSlice> / From<BitVec> - finding F11, repaired) and PRESERVED by clone and every edit, plus the layout lemma from bit-level agreement to the documented symbol layout',
         level_note=B_NOTE + '; KmerStorage::{to_bitarray,from_bitslice} are verified for usize, u64 and u128 (two-word split lemma); From<&Kmer> for usize (generic Into) is covered by the bounded stand-in',
         technique='deductive verification (Verus) of extracted functions against contracts; head-offset ghost state',
         verus=[
-            dict(name='c04', mode='T', roots=['slice.try_usize', 'slice.try_usize.accept', 'slice.into_u8', 'kmer.storage', 'kmer.conv', 'kmer.unsafe_from', 'seq.raw', 'slice.to_owned', 'slice.bitops', 'seq.bitops', 'seq.clone', 'seq.push', 'seq.prepend', 'seq.insert', 'seq.append', 'seq.truncate', 'seq.clear', 'seq.new', 'seq.with_capacity'] + REMOVE),
+            dict(name='c04', mode='T', roots=['slice.try_usize', 'slice.try_usize.accept', 'slice.into_u8', 'kmer.storage', 'kmer.conv', 'kmer.unsafe_from', 'seq.raw', 'seq.from_bits', 'slice.to_owned', 'slice.bitops', 'seq.bitops', 'seq.clone', 'seq.push', 'seq.prepend', 'seq.insert', 'seq.append', 'seq.truncate', 'seq.clear', 'seq.new', 'seq.with_capacity'] + REMOVE),
             dict(name='c04', mode='R', roots=['slice.try_usize', 'slice.into_u8', 'seq.into_usize']),
         ],
         standin=True,
